@@ -414,6 +414,62 @@ def gen_thin(rng):
     return kind, vs, [(f(a), f(b)) for a, b in q], f(cav), f(wall), t
 
 
+
+# ---- closed shapes with PARTIAL circular arcs whose rotation attribute is not 0
+def arc_shape(rng):
+    """circular segment ('D'), pie slice or stadium; the circular Arcs carry a rotation attribute
+    (geometrically irrelevant for rx == ry) either directly or through Path.rotated().
+    Returns (path, kind, truth) with truth(z) -> True/False/None (None: undecided / too close)"""
+    import cmath
+    from svgpathtools import Path, Line, Arc
+    r = rng.choice([1.0, 1.0, 2.0, 0.5, 5.0, 16.0])
+    c = complex(dy(rng, -20, 20), dy(rng, -20, 20))
+    rot = rng.choice([30.0, 90.0, 45.0, -120.0, 180.0, 17.5, 270.0, rng.uniform(-180, 180), 0.0])
+    th0 = rng.choice([-math.pi / 2, 0.0, rng.uniform(0, 2 * math.pi)])
+    d = rng.choice([math.pi, math.pi, rng.uniform(0.35, 0.9) * math.pi, rng.uniform(1.1, 1.6) * math.pi])
+    P = lambda t: c + r * complex(math.cos(t), math.sin(t))
+    p0, p1, mid = P(th0), P(th0 + d), P(th0 + d / 2)
+    kind = rng.choice(['dseg', 'dseg', 'pie', 'stadium'])
+    if kind == 'dseg':
+        path = Path(Arc(p0, complex(r, r), rot, d > math.pi * (1 + 1e-9), True, p1), Line(p1, p0))
+        sm = orient((p0.real, p0.imag), (p1.real, p1.imag), (mid.real, mid.imag))
+
+        def truth0(z):
+            o = orient((p0.real, p0.imag), (p1.real, p1.imag), (z.real, z.imag))
+            if abs(abs(z - c) - r) < 0.04 * r or abs(o) < 0.04 * r * abs(p1 - p0):
+                return None
+            return abs(z - c) < r and (o > 0) == (sm > 0)
+    elif kind == 'pie':
+        path = Path(Line(c, p0), Arc(p0, complex(r, r), rot, d > math.pi * (1 + 1e-9), True, p1), Line(p1, c))
+
+        def truth0(z):
+            a = (cmath.phase((z - c) / (p0 - c))) % (2 * math.pi)
+            if abs(abs(z - c) - r) < 0.04 * r or abs(z - c) < 0.06 * r or \
+               min(a, 2 * math.pi - a) < 0.06 or abs(a - d) < 0.06:
+                return None
+            return abs(z - c) < r and a < d
+    else:
+        L = r * rng.choice([1.0, 2.0, 3.0])
+        u = complex(math.cos(th0), math.sin(th0)); n_ = u * 1j
+        a0, b0, b1, a1 = c - r * n_, c + L * u - r * n_, c + L * u + r * n_, c + r * n_
+        path = Path(Line(a0, b0), Arc(b0, complex(r, r), rot, False, True, b1), Line(b1, a1),
+                    Arc(a1, complex(r, r), rot, False, True, a0))
+        truth0 = lambda z: None
+    how = 'direct'
+    truth = truth0
+    if rng.random() < 0.45:
+        deg = rng.choice([40.0, -120.0, 90.0, 30.0, rng.uniform(-180, 180)])
+        o = c if rng.random() < 0.5 else complex(dy(rng, -5, 5), dy(rng, -5, 5))
+        path = path.rotated(deg, origin=o)
+        w = complex(math.cos(math.radians(deg)), math.sin(math.radians(deg)))
+        truth = lambda z: truth0((z - o) / w + o)
+        how = 'rotated'
+    if rng.random() < 0.3:
+        path = path.reversed()
+    rots = [s_.rotation for s_ in path if isinstance(s_, Arc)]
+    return path, '%s-%s' % (kind, how), truth, max(abs(x) % 360 for x in rots) != 0
+
+
 # ------------------------------------------------------------ serialisation
 def seg_json(s):
     from svgpathtools import Arc
@@ -710,7 +766,7 @@ def sample_path(path, per=400):
     return pts
 
 
-def probe_crossings_sampled(path, pt, opt, per=2000):
+def probe_crossings_sampled(path, pt, opt, per=2000, cache=None):
     """crossing count of the probe with a curved path from dense samples, with
     a general-position verdict: no near-tangency, no crossing near a joint or
     near the probe's ends.  Returns (gp_ok, count)."""
@@ -722,8 +778,15 @@ def probe_crossings_sampled(path, pt, opt, per=2000):
     for s in path:
         prev = None
         vals = []
+        if cache is not None:
+            key_ = (id(s), per)
+            if key_ not in cache:
+                cache[key_] = [s.point(k / per) for k in range(per + 1)]
+            zs_ = cache[key_]
+        else:
+            zs_ = None
         for k in range(per + 1):
-            z = s.point(k / per)
+            z = zs_[k] if zs_ is not None else s.point(k / per)
             w = z - pt
             dist = (w.real * nrm.real + w.imag * nrm.imag)
             along = (w.real * d.real + w.imag * d.imag) / (L * L)
@@ -1000,6 +1063,89 @@ def run(rep, tier, seed, replay=None):
             if abs(A - math.pi / 16) > math.pi / 16 * 1e-6:
                 viol('area() of a circle with the default chord length', {'kind': 'area', 'path': path_json(c), 'observed': A}, 'area-arc')
 
+        # ---- history stream: ONE path object queried repeatedly (different chord_length, after in-place edits);
+        #      every answer must be the answer of a fresh path with the same segments and the same chord_length
+        def fresh(p_):
+            return path_from_json(path_json(p_))
+
+        def hist_query(p_, chord, base, step, tie=False):
+            nonlocal evals
+            kw = {'chord_length': chord} if chord is not None else {}
+            try:
+                a_obj = float(p_.area(**kw)); a_new = float(fresh(p_).area(**kw)); evals += 1
+            except Exception as e:
+                viol('area() raised %s in a query history' % type(e).__name__, dict(base, error=repr(e), step=step),
+                     'area-history-exception')
+                return None
+            if a_obj != a_new:
+                viol('area(%s) after %s returns %r on the queried object but %r on a fresh path with the same segments'
+                     % ('chord_length=%r' % chord if chord is not None else '', step, a_obj, a_new),
+                     dict(base, path=path_json(p_), chord=common.fhex(chord) if chord else None, step=step,
+                          observed=[a_obj, a_new]), 'area-history')
+            if tie:      # the Coq model sees the answer given in the middle of the history
+                area_cases.append('(%s, false, %s, None, None)' % (
+                    coq_list([coq_cseg(s_, chord if chord else 1e-4) for s_ in p_]), qc(a_obj)))
+                area_meta.append(dict(base, path=path_json(p_), chord=common.fhex(chord) if chord else None,
+                                      step=step, observed=a_obj))
+            return a_obj
+
+        n_hist = 0 if replay else (12 if quick else 200) * boost
+        for i in range(n_hist):
+            if i % 3 != 2:
+                if i % 2:
+                    p_, meta = ellipse_path(rng); sz = min(meta['a'], meta['b']); big = meta['a'] + meta['b']
+                else:
+                    p_, k_, _, _ = arc_shape(rng)
+                    bb_ = p_.bbox(); big = (bb_[1] - bb_[0]) + (bb_[3] - bb_[2]); sz = big / 4
+                rough = max(0.5 * sz, big / 40); fine = max(rough / 8, big / 300)
+                order = rng.choice([(rough, fine), (fine, rough), (rough, fine, rough), (fine, rough, fine)])
+                base = {'kind': 'area-history', 'shape': 'arcs', 'chords': [common.fhex(c_) for c_ in order]}
+                for j, c_ in enumerate(order):
+                    hist_query(p_, c_, base, 'query %d of chord lengths %r' % (j + 1, list(order)), tie=(j == 1))
+                # reversed() after priming with the other chord length
+                try:
+                    c_ = order[0]
+                    ar, af = float(p_.reversed().area(chord_length=c_)), float(fresh(p_).area(chord_length=c_)); evals += 1
+                    if abs(ar + af) > 1e-9 * abs(af) + 1e-12:
+                        viol('reversed().area(chord_length=%r) = %r is not minus the area %r of the path, after the path object '
+                             'had been queried with another chord length' % (c_, ar, af),
+                             dict(base, path=path_json(p_), observed=[ar, af]), 'area-history')
+                except Exception as e:
+                    viol('reversed().area() raised %s in a query history' % type(e).__name__, dict(base, error=repr(e)),
+                         'area-history-exception')
+                nontrivial.add(('hist', 'arcs', i))
+                dist['hist-arcs'] = dist.get('hist-arcs', 0) + 1
+            else:
+                # in-place edits of a polygon whose area is primed before each edit
+                vs = gen_star(rng, rng.randint(4, 9))
+                p_ = poly_path(vs)
+                base = {'kind': 'area-history', 'shape': 'edits'}
+                hist_query(p_, None, base, 'construction')
+                n_ = len(p_)
+                k = rng.randrange(n_)
+                a_, b_ = p_[k].start, p_[k].end
+                m_ = (a_ + b_) / 2 + (b_ - a_) * 1j * rng.choice([0.25, -0.125, 0.5])
+                p_[k] = QuadraticBezier(a_, m_, b_)                               # __setitem__
+                hist_query(p_, None, base, 'p[%d] = QuadraticBezier(...)' % k, tie=True)
+                k = rng.randrange(n_)
+                a_, b_ = p_[k].start, p_[k].end
+                m_ = snap((a_ + b_) / 2 + (b_ - a_) * 1j * 0.25)
+                p_[k] = Line(a_, m_); p_.insert(k + 1, Line(m_, b_))              # insert
+                hist_query(p_, None, base, 'insert of a vertex after segment %d' % k)
+                k = rng.randrange(1, len(p_) - 1)
+                if isinstance(p_[k], Line) and isinstance(p_[k - 1], Line) and p_[k - 1].start != p_[k].end:
+                    e_ = p_[k].end
+                    del p_[k]                                                     # __delitem__
+                    p_[k - 1] = Line(p_[k - 1].start, e_)
+                    hist_query(p_, None, base, 'del p[%d] and re-joining' % k)
+                if isinstance(p_[0], Line) and isinstance(p_[-1], Line):
+                    z_ = snap(p_.start + complex(rng.choice([0.5, -1, 2]), rng.choice([0.25, 1, -2])))
+                    if z_ != p_[0].end and z_ != p_[-1].start:
+                        p_.start = z_; p_.end = z_                                # start / end setters
+                        hist_query(p_, None, base, 'p.start = p.end = %r' % z_, tie=True)
+                nontrivial.add(('hist', 'edits', i))
+                dist['hist-edits'] = dist.get('hist-edits', 0) + 1
+
         fails, errors = common.run_cases(tmp, '', 'casety', OKDEF_AREA, area_cases, shard=25, prefix='area')
         for e in errors:
             rep.violation('correspondence case file (area) failed to evaluate', {'kind': 'cases', 'error': e},
@@ -1174,6 +1320,46 @@ def run(rep, tier, seed, replay=None):
                      % (kind, got, cnt), dict(base, observed=got, crossings=cnt), 'encloses-curved-parity')
             nontrivial.add(('enc-curved', kind, done))
             dist['enc-' + kind] = dist.get('enc-' + kind, 0) + 1
+
+
+        # ---- shapes with PARTIAL circular arcs carrying a rotation attribute (directly or via rotated())
+        arc_shapes = []
+        n_ash = 0 if replay else (16 if quick else 500) * boost
+        for i in range(n_ash):
+            path, kind, truth, rotated_attr = arc_shape(rng)
+            arc_shapes.append((path, kind, truth))
+            bb = path.bbox()
+            w, h = bb[1] - bb[0], bb[3] - bb[2]
+            cache = {}
+            q = 0
+            for attempt in range(12):
+                if q >= 4:
+                    break
+                pt = complex(rng.uniform(bb[0] - 0.15 * w, bb[1] + 0.15 * w), rng.uniform(bb[2] - 0.15 * h, bb[3] + 0.15 * h))
+                opt = [complex(bb[0] - 1, bb[2] - 1), complex(bb[1] + rng.uniform(0.2, 2) * w, rng.uniform(bb[2] - h, bb[3] + h)),
+                       complex(rng.uniform(bb[0] - w, bb[1] + w), bb[3] + rng.uniform(0.2, 2) * h)][attempt % 3]
+                gp, cnt = probe_crossings_sampled(path, pt, opt, cache=cache)
+                if not gp:
+                    continue
+                q += 1
+                want = (cnt % 2 == 1)
+                tr = truth(pt)
+                if tr is not None and tr != want:
+                    raise AssertionError('harness: sampled parity vs geometric truth on %s at %r' % (kind, pt))
+                base = {'kind': 'encloses-curved', 'shape': kind, 'path': path_json(path), 'pt': common.chex(pt),
+                        'opt': common.chex(opt)}
+                try:
+                    got = bool(path_encloses_pt(pt, opt, path)); evals += 1
+                except Exception as e:
+                    viol('path_encloses_pt raised %s on a %s path' % (type(e).__name__, kind), dict(base, error=repr(e)),
+                         'encloses-curved-exception')
+                    continue
+                if got != want:
+                    viol('path_encloses_pt on a closed path with a partial circular arc (%s, Arc.rotation %s 0) disagrees with the '
+                         'crossing parity (got %r, %d transversal crossings)' % (kind, '!=' if rotated_attr else '==', got, cnt),
+                         dict(base, observed=got, crossings=cnt), 'encloses-curved-parity')
+                nontrivial.add(('enc-arcshape', kind, i, q))
+                dist['enc-arc-' + kind] = dist.get('enc-arc-' + kind, 0) + 1
 
         # ============================== C. is_contained_by ==============================
         con_cases, con_meta = [], []
@@ -1357,6 +1543,22 @@ def run(rep, tier, seed, replay=None):
             done += 1 if ok_ else 0
             if ok_ and 'con' in last and mode not in ('figure8-lobe', 'figure8-gap') and rng.random() < 0.3:
                 con_far(last_inner[0], outer_vs, mode + '/' + mode, last['con'])
+        # ---- small polygons inside / outside the shapes with partial rotated circular arcs
+        for path, kind, truth in arc_shapes:
+            bb = path.bbox()
+            w, h = bb[1] - bb[0], bb[3] - bb[2]
+            placed = {True: 0, False: 0}
+            for attempt in range(16):
+                cen = complex(rng.uniform(bb[0], bb[1]), rng.uniform(bb[2], bb[3]))
+                tr = truth(cen)
+                if tr is None and kind.startswith('stadium'):
+                    tr = attempt % 2 == 0        # class unknown in advance; the sampled reference decides
+                elif tr is None:
+                    continue
+                if placed[tr] >= 1:
+                    continue
+                if con_check_curved(small_poly(rng, cen, min(w, h) / 16), path, 'arc-%s/%s' % (kind, 'in' if tr else 'out')):
+                    placed[tr] += 1
         # ---- thin-walled outer paths: a small polygon in the cavity (the implied probe crosses a wall on both
         #      sides), inside the wall, or outside; at the origin and far from it
         for kind, vs, cav, wall, t in thin_scenes:
@@ -1436,7 +1638,9 @@ def run(rep, tier, seed, replay=None):
             '|signed area| is no guide (bow-tie and pentagram outer polygons with a small polygon in a lobe / tip / gap / winding-2 '
             'core, doubly winding spiral inside a smaller-area convex polygon, figure-eight Bezier outer path); thin features '
             '(U-channel, sliver, C-frame; walls 2^-6..1 thick crossed on both sides) and exact translates of enclosure / containment '
-            'scenes by offsets 1e4..1e6 with the translation invariance of the answers; every Coq '
+            'scenes by offsets 1e4..1e6 with the translation invariance of the answers; closed shapes with partial circular arcs '
+            'whose rotation attribute is non-zero (D, pie, stadium; direct and through rotated()); area(): query histories on one '
+            'object (rough/fine chord lengths, in-place edits) against fresh paths; every Coq '
             'comparison is computed on Model/Area.v in exact rationals')
         rep.cov['input_distribution'] = dist
         rep.cov['violations_by_key'] = by_key
